@@ -500,13 +500,35 @@ func (c *Ctx) mapRangeOrderInsensitive(a *own.Analysis, fn *ssa.Function, rg *ss
 					return ""
 				}
 				// (iii) callback iteration: acceptable only if no parse-time caller
-				if _, isParam := x.Call.Value.(*ssa.Parameter); isParam && !x.Call.IsInvoke() {
+				if prm, isParam := x.Call.Value.(*ssa.Parameter); isParam && !x.Call.IsInvoke() {
+					pidx := -1
+					for i, p := range fn.Params {
+						if p == prm {
+							pidx = i
+						}
+					}
+					parseTime := false
 					for _, e := range c.P.Callers(fn) {
-						if c.S.Parser[e.Caller.Func] && e.Caller.Func.Synthetic == "" {
+						if !c.S.Parser[e.Caller.Func] || e.Caller.Func.Synthetic != "" {
+							continue
+						}
+						parseTime = true
+						// a parse-time caller: fine if the callback it passes does the same thing in any order
+						okCb := false
+						if e.Site != nil && pidx >= 0 && pidx < len(e.Site.Common().Args) {
+							if mc, ok := e.Site.Common().Args[pidx].(*ssa.MakeClosure); ok {
+								okCb = commutativeCallback(mc.Fn.(*ssa.Function))
+							}
+						}
+						if !okCb {
 							return ""
 						}
 					}
-					kind = "(iii) callback iteration with no caller in parser scope"
+					if parseTime {
+						kind = "(iii') callback iteration; every callback passed at parse time only inserts into a map or stores constants into captured variables (order-insensitive)"
+					} else {
+						kind = "(iii) callback iteration with no caller in parser scope"
+					}
 					continue
 				}
 				return ""
@@ -673,4 +695,42 @@ func (c *Ctx) recvKeyDefinedOnce(fn *ssa.Function, idx ssa.Value) string {
 		}
 	}
 	return ""
+}
+
+// commutativeCallback: the closure's effects are map inserts and stores of constants into captured variables, and it
+// calls nothing but builtins and the library's own read-only accessors: running it over the entries in any order
+// leaves the same state.
+func commutativeCallback(g *ssa.Function) bool {
+	for _, b := range g.Blocks {
+		for _, in := range b.Instrs {
+			switch x := in.(type) {
+			case *ssa.Store:
+				if _, isFV := x.Addr.(*ssa.FreeVar); !isFV {
+					return false
+				}
+				if _, isC := x.Val.(*ssa.Const); !isC {
+					return false
+				}
+			case *ssa.MapUpdate:
+			case *ssa.Call:
+				if _, isB := x.Call.Value.(*ssa.Builtin); isB {
+					continue
+				}
+				sc := x.Call.StaticCallee()
+				if sc == nil || x.Call.IsInvoke() {
+					return false
+				}
+				if _, ok := isStaticMethod(x, "data", "IntMap", "Get"); ok {
+					continue
+				}
+				if _, ok := isStaticMethod(x, "data", "IntSet", "Len"); ok {
+					continue
+				}
+				return false
+			case *ssa.Go, *ssa.Defer, *ssa.Send, *ssa.Panic:
+				return false
+			}
+		}
+	}
+	return true
 }
